@@ -92,6 +92,8 @@ def extract_nd_array(
     To implement for another type, register via the singledispatch mechanism.
     """
 
+    if isinstance(data, Iterator):
+        data = list(data)  # (As for 1D data)
     try:
         array: np.ndarray = np.asarray(data, dtype=float)
     except ValueError as exc:
